@@ -6,6 +6,7 @@
  */
 
 use std::collections::BTreeMap;
+use std::io::Write;
 use std::path::Path;
 use std::path::PathBuf;
 
@@ -446,7 +447,10 @@ impl Args {
             failed = count_failed,
             detached = count_detached,
         );
-        print!("{}", renderer.render(&outcomes.iter().collect::<Vec<_>>())?);
+        // a closed or full STDOUT is an error, not a panic
+        std::io::stdout()
+            .write_all(renderer.render(&outcomes.iter().collect::<Vec<_>>())?.as_bytes())
+            .context("write result to STDOUT")?;
 
         if count_failed > 0 {
             Err(anyhow!(ValidationFailedError))
